@@ -109,11 +109,27 @@ async def run_history(loop: vclock.VLoop, hist: dict) -> dict:
     if hist.get("watch_payloads"):
         # an application handler (runs after Gateway._msg_handler, as every added handler does): what it was handed is recorded, and
         # compared at the end with what the same Message object then says (C05: a decoded payload does not change afterwards)
+        last_rx = [None]
+
         def _watch(msg: Any) -> None:
             try:
                 watched.append((msg, json.dumps(msg.payload, sort_keys=True, default=repr)))
             except Exception as e:  # noqa: BLE001
                 watched.append((msg, f"RAISES {type(e).__name__}"))
+            # 'no dependence on prior packets': when the previous packet is more than 3.5 s old (beyond the 3 s window in which the library
+            # merges a split array on purpose), what is delivered must be what the same packet decodes to on its own
+            now_ = loop.time()
+            if last_rx[0] is not None and now_ - last_rx[0] > 3.5 and not watched[-1][1].startswith("RAISES"):
+                try:
+                    from ramses_tx.message import Message
+                    from ramses_tx.packet import Packet
+
+                    alone = json.dumps(Message(Packet.from_port(msg.dtm, f"... {msg._pkt}")).payload, sort_keys=True, default=repr)
+                    if alone != watched[-1][1]:
+                        obs.setdefault("differs_from_alone", []).append({"pkt": str(msg._pkt), "delivered": watched[-1][1][:600], "alone": alone[:600], "gap": round(now_ - last_rx[0], 2)})
+                except Exception:  # noqa: BLE001 - C01's business
+                    pass
+            last_rx[0] = now_
 
         gwy.add_msg_handler(_watch)
     ops_at: dict[int, list[dict]] = {}
